@@ -236,12 +236,13 @@ def attach_log(problem):
     return problem
 
 
-def plog(problem):
+def plog(problem, owners=None):
     """uniform access to the call log of a LoggedProblem (impl.py) or of an attach_log-wrapped problem:
-    list of (phase, point, value)"""
+    list of (phase, point, value); `owners`: only the calls made by these objects (the OptimizationTask / Process of ONE solver -
+    needed when several solvers work on one and the same Problem object)"""
     if hasattr(problem, "o2log"):
         return list(problem.o2log)
-    return [(e[0], e[1], float(e[2])) for e in problem.log]
+    return [(e[0], e[1], float(e[2])) for e in problem.log if owners is None or len(e) < 5 or e[4] in owners]
 
 
 def solution_snapshot(sol):
